@@ -339,7 +339,8 @@ jose_jwe_enc_cek_io(jose_cfg_t *cfg, json_t *jwe, const json_t *cek,
             return NULL;
     }
 
-    if (json_unpack(prt, "{s:s}", "zip", &z) == 0) {
+    z = json_string_value(json_object_get(prt, "zip"));
+    if (z) {
         const jose_hook_alg_t *a = NULL;
         jose_io_auto_t *enc = NULL;
 
